@@ -95,18 +95,6 @@ def _not_in(prop, case, f):
     return False
 
 
-@pred("tz-aware-constants-compared-with-naive-values")
-def _in_tz(prop, case, f):
-    # statistics of a tz-aware column decode to naive datetime64; `vmax not in values` with tz-aware Timestamps is always True
-    if prop == "C13":
-        # row stage: df[name].values of a tz-aware column is naive UTC, so ==/in never match and != always matches
-        return f.get("kind") in _ROWSET and "tz=" in json.dumps(f.get("program"))
-    if f.get("kind") != "unsound_decision" or f.get("op") not in ("in",) or f.get("func") != "filter_out_stats":
-        return False
-    dt = f.get("col_dtype", "")
-    return dt.startswith("datetime64[") and "," in dt and any("tz=" in str(c) for c in (f.get("const") or []))
-
-
 @pred("string-bound-comparison-ignores-trailing-nul")
 def _nul(prop, case, f):
     # converted UTF8 statistics are pandas StringArray / numpy str: comparison with a constant ignores trailing NUL characters
